@@ -937,6 +937,7 @@ func (c *pieceCtx) r7(rule string) {
 	r.Sentinel(rule+".sinks", nSink, 1)
 	// ... at the offset it occupies: the upload path computes the byte offset in 64-bit arithmetic
 	uploadOffset64(r, rule)
+	pieceSizeProducts64(r, rule)
 	r.Sentinel(rule, n, 3)
 }
 
